@@ -174,7 +174,10 @@ func c10Line(work, line string, lineNo, slots int) {
 				emit(jobj{"k": "ev", "line": lineNo, "kind": "till", "zeit": zeit, "subd": subd, "slot": ntil0, "adv": g.NTIL.Index - ntil0})
 			}
 			if harvest {
-				emit(jobj{"k": "ev", "line": lineNo, "kind": "harv", "zeit": zeit, "subd": subd, "slot": akf0, "adv": g.AKF.Index - akf0})
+				// the event arrays must come out of a harvest call as they went in (the harvest writes ZTDG[AKF] only for the
+				// organic fertiliser of automatic management)
+				emit(jobj{"k": "ev", "line": lineNo, "kind": "harv", "zeit": zeit, "subd": subd, "slot": akf0, "adv": g.AKF.Index - akf0,
+					"ztdg": c10ints(g.ZTDG[:slots]), "einte": c10ints(g.EINTE[1 : slots+1])})
 			}
 			if subd != 1 {
 				nitroOther++
